@@ -80,7 +80,7 @@ def c27(idx: Index, rep: Report, tier: str) -> None:
             bad = [t for t, _ in guards_dominating(cfg, node) if t.kind == "test" and (_names(t.ast) & loop_vars)]
             rep.check(not bad, rule, f"the effect's {key} is added to the read set for every effect", f.loc(node.ast), construct=f"{key}: {'under `' + norm(bad[0].ast)[:50] + '`' if bad else 'unconditional'}", detail="" if not bad else f"effects for which `{norm(bad[0].ast)}` does not hold do not record their {key} as read: two instances that increase / decrease the same fluent, or a later reader of it, are left unordered and some linearisation of the partial-order plan is invalid", function=f.qualname)
     rep.count("read_set_contributions", n)
-    rep.require_min(rule, "read_set_contributions", 3)
+    rep.require_min(rule, "read_set_contributions", 3, f.qualname)
     class_level_mutables(idx, rep, "C27.4 T11 no-class-level-cache", ("unified_planning.plans",))
     # every fluent occurrence an action instance reads is registered as required: inside the loop over the lifted
     # fluents the `required.add(…)` depends on no test except those that reject the plan (the other branch raises)
@@ -823,6 +823,18 @@ class _SetInterp:
         v = self._expr(t, env)
         return bool(v)
 
+    def _bind(self, target, value, env):
+        if isinstance(target, ast.Name):
+            env[target.id] = value
+        elif isinstance(target, (ast.Tuple, ast.List)):
+            vals = list(value)
+            if len(vals) != len(target.elts):
+                raise _Raised("ValueError: unpacking arity")
+            for t, v in zip(target.elts, vals):
+                self._bind(t, v, env)
+        else:
+            raise self.Unsupported("binding target " + type(target).__name__)
+
     def _expr(self, e, env):
         if isinstance(e, ast.Constant):
             return e.value
@@ -1120,8 +1132,19 @@ def c32(idx: Index, rep: Report, tier: str) -> None:
                 for c in [c for st in body for c in ast.walk(st) if isinstance(c, ast.Call) and isinstance(c.func, ast.Attribute) and norm(c.func.value) == "EngineClass" and len(c.args) == 1 and isinstance(c.args[0], ast.Name) and c.args[0].id in reqs]:
                     m_sel.setdefault(c.args[0].id, set()).update(classes)
     ne = 0
-    gcfg = cfg_of(get)
-    for nd in gcfg.nodes:
+    # the report is built in _get_engine_class or in a private helper of the factory it calls; a helper is read when
+    # it receives the requirement under the selection's own name (otherwise the fallback of Report.require_min holds)
+    hosts = [get]
+    for c in walk_no_nested(get.node):
+        if isinstance(c, ast.Call) and isinstance(c.func, ast.Attribute) and norm(c.func.value) in ("self", "Factory") and c.func.attr.startswith("_") and c.func.attr in fac.methods and fac.methods[c.func.attr] not in hosts and fac.methods[c.func.attr] is not sel:
+            h = fac.methods[c.func.attr]
+            formal = [a.arg for a in h.node.args.args if a.arg not in ("self", "cls")]
+            passed = {formal[i]: norm(a) for i, a in enumerate(c.args) if i < len(formal)}
+            passed.update({k.arg: norm(k.value) for k in c.keywords if k.arg})
+            if all(passed.get(r, r) == r for r in m_sel if r in formal):
+                hosts.append(h)
+    for gcfg in [cfg_of(h) for h in hosts]:
+      for nd in gcfg.nodes:
         if not isinstance(nd.ast, ast.Assert):
             continue
         have = issub_classes([nd.ast])
@@ -1167,7 +1190,7 @@ def c32(idx: Index, rep: Report, tier: str) -> None:
     rep.count("preference_appends", npf)
     rep.require_min(rule_p, "preference_appends", 4)
     rep.count("report_assertions", ne)
-    rep.require_min(rule_e, "report_assertions", 2)
+    rep.require_min(rule_e, "report_assertions", 2, get.qualname)
 
 
 # ------------------------------------------------------------------------------------ C34
@@ -1767,11 +1790,29 @@ class _OrderInterp:
                     raise self.Unsupported("unpacking arity")
                 for x, v in zip(s.targets[0].elts, vals):
                     env[x.id] = v
+            elif isinstance(s, ast.AnnAssign) and isinstance(s.target, ast.Name):
+                if s.value is not None:
+                    env[s.target.id] = self._expr(s.value, env)
             elif isinstance(s, ast.If):
                 self._block(s.body if self._expr(s.test, env) else s.orelse, env)
-            elif isinstance(s, ast.For) and isinstance(s.target, ast.Name):
+            elif isinstance(s, ast.While) and not s.orelse:
+                fuel = 10000
+                while self._expr(s.test, env):
+                    fuel -= 1
+                    if fuel < 0:
+                        raise _Raised("does not terminate")
+                    try:
+                        self._block(s.body, env)
+                    except _LoopContinue:
+                        continue
+                    except _LoopBreak:
+                        break
+            elif isinstance(s, ast.Assert) and getattr(self, "check_asserts", False):
+                if not self._expr(s.test, env):
+                    raise _Raised("AssertionError: " + norm(s.test)[:60])
+            elif isinstance(s, ast.For) and isinstance(s.target, (ast.Name, ast.Tuple)) and not s.orelse:
                 for x in list(self._expr(s.iter, env)):
-                    env[s.target.id] = x
+                    self._bind(s.target, x, env)
                     try:
                         self._block(s.body, env)
                     except _LoopContinue:
@@ -1799,6 +1840,18 @@ class _OrderInterp:
                 raise _Raised(norm(s.exc)[:60] if s.exc is not None else "")
             else:
                 raise self.Unsupported(type(s).__name__)
+
+    def _bind(self, target, value, env):
+        if isinstance(target, ast.Name):
+            env[target.id] = value
+        elif isinstance(target, (ast.Tuple, ast.List)):
+            vals = list(value)
+            if len(vals) != len(target.elts):
+                raise _Raised("ValueError: unpacking arity")
+            for t, v in zip(target.elts, vals):
+                self._bind(t, v, env)
+        else:
+            raise self.Unsupported("binding target " + type(target).__name__)
 
     def _expr(self, e, env):
         if isinstance(e, ast.Constant):
@@ -1871,12 +1924,12 @@ class _OrderInterp:
                 tv = base._table[e.attr]
                 return tv() if isinstance(tv, _Prop) else tv
             raise self.Unsupported(f"attribute {e.attr}")
-        if isinstance(e, (ast.GeneratorExp, ast.ListComp, ast.SetComp)) and len(e.generators) == 1 and isinstance(e.generators[0].target, ast.Name):
+        if isinstance(e, (ast.GeneratorExp, ast.ListComp, ast.SetComp)) and len(e.generators) == 1 and isinstance(e.generators[0].target, (ast.Name, ast.Tuple)):
             g = e.generators[0]
             out = []
             for x in list(self._expr(g.iter, env)):
                 env2 = dict(env)
-                env2[g.target.id] = x
+                self._bind(g.target, x, env2)
                 if all(self._expr(c, env2) for c in g.ifs):
                     out.append(self._expr(e.elt, env2))
             return set(out) if isinstance(e, ast.SetComp) else out
@@ -1885,6 +1938,18 @@ class _OrderInterp:
             return {"all": all(v), "any": any(v), "set": set(v), "len": len(v), "list": v, "tuple": tuple(v)}[e.func.id]
         if isinstance(e, ast.Call) and isinstance(e.func, ast.Name) and e.func.id == "set" and not e.args:
             return set()
+        if isinstance(e, ast.Call) and isinstance(e.func, ast.Name) and e.func.id == "range" and 1 <= len(e.args) <= 3 and not e.keywords:
+            return range(*[self._expr(a, env) for a in e.args])
+        if isinstance(e, ast.Call) and isinstance(e.func, ast.Name) and e.func.id == "zip" and e.args and not e.keywords:
+            return list(zip(*[list(self._expr(a, env)) for a in e.args]))
+        if isinstance(e, ast.BinOp) and isinstance(e.op, (ast.Sub, ast.Add, ast.BitOr, ast.BitAnd)):
+            l, r = self._expr(e.left, env), self._expr(e.right, env)
+            try:
+                return {ast.Sub: lambda: l - r, ast.Add: lambda: l + r, ast.BitOr: lambda: l | r, ast.BitAnd: lambda: l & r}[type(e.op)]()
+            except TypeError:
+                raise self.Unsupported(norm(e)[:60])
+        if isinstance(e, ast.Set):
+            return {self._expr(x, env) for x in e.elts}
         if isinstance(e, ast.Call) and isinstance(e.func, ast.Attribute) and not e.keywords:
             try:
                 base = self._expr(e.func.value, env)
@@ -1894,6 +1959,22 @@ class _OrderInterp:
                 a = [self._expr(x, env) for x in e.args]
                 return base.get(a[0], a[1] if len(a) > 1 else None)
             if isinstance(base, set) and e.func.attr in ("add", "discard"):
+                getattr(base, e.func.attr)(self._expr(e.args[0], env))
+                return None
+            if isinstance(base, (set, list, dict)) and e.func.attr == "copy" and not e.args:
+                return base.copy()
+            if isinstance(base, (set, list)) and e.func.attr == "remove" and len(e.args) == 1:
+                x = self._expr(e.args[0], env)
+                if x not in base:
+                    raise _Raised("KeyError/ValueError: remove of an absent element")
+                base.remove(x)
+                return None
+            if isinstance(base, list) and e.func.attr == "pop" and len(e.args) <= 1:
+                a = [self._expr(x, env) for x in e.args]
+                if not base:
+                    raise _Raised("IndexError: pop from empty list")
+                return base.pop(*a)
+            if isinstance(base, set) and e.func.attr in ("difference_update", "update") and len(e.args) == 1:
                 getattr(base, e.func.attr)(self._expr(e.args[0], env))
                 return None
             if isinstance(base, _Stub):
